@@ -176,7 +176,8 @@ func NewStatic(channelKeys channel.Keys, dataTypes []telem.DataType, opts ...Opt
 
 // NewDynamic creates a new codec that can be dynamically updated by retrieving channels
 // from the provided channel store with default configuration (alignment compression enabled).
-// Codec.Update must be called before the first call to Codec.Encode and Codec.Decode.
+// Codec.Update must be called before the first call to Codec.Encode and Codec.Decode:
+// Encode panics and Decode returns a validation error otherwise.
 func NewDynamic(channels *channel.Service, opts ...Option) *Codec {
 	c := newCodec(opts...)
 	c.channels = channels
@@ -672,7 +673,15 @@ func (c *Codec) Decode(src []byte) (dst framer.Frame, err error) {
 // DecodeStream decodes a frame from the given io reader.
 func (c *Codec) DecodeStream(reader io.Reader) (framer.Frame, error) {
 	c.processUpdates()
-	c.panicIfNotUpdated("Decode")
+	// The bytes handed to the decoder come from the network, so data that arrives
+	// before the channel set was negotiated is an invalid message, not a programming
+	// error: report it instead of panicking.
+	if c.mu.seqNum < 1 {
+		return framer.Frame{}, errors.Wrap(
+			validate.ErrValidation,
+			"[framer.codec] - dynamic codec was not updated before first call to Decode",
+		)
+	}
 	c.reader.Reset(reader)
 
 	var (
